@@ -43,7 +43,7 @@ def gen_nnf_asts(model):
             if logical(c.ast.root) and not has_xor_or_equivalence(c.ast.root)]
 
 
-@contract(FM, 'Constraint.is_requires_constraint', prop='C18')
+@contract(FM, 'Constraint.is_requires_constraint', prop='C18', also=('C03',))
 class IsRequires:
     models = staticmethod(ctc_models)
     def pre(self):
@@ -53,7 +53,7 @@ class IsRequires:
         return result == req_form(self.ast.root)
 
 
-@contract(FM, 'Constraint.is_excludes_constraint', prop='C18')
+@contract(FM, 'Constraint.is_excludes_constraint', prop='C18', also=('C03',))
 class IsExcludes:
     models = staticmethod(ctc_models)
     def pre(self):
@@ -63,7 +63,7 @@ class IsExcludes:
         return result == exc_form(self.ast.root)
 
 
-@contract(FM, 'Constraint.is_simple_constraint', prop='C18')
+@contract(FM, 'Constraint.is_simple_constraint', prop='C18', also=('C03',))
 class IsSimple:
     models = staticmethod(ctc_models)
     lemmas = ('lemma_simple_forms_disjoint',)
@@ -296,7 +296,7 @@ class IsPseudoComplex:
 
 
 # ------------------------------------------------------------------ the model-level listings of simple constraints
-@contract(FM, 'FeatureModel.get_requires_constraints', prop='C18')
+@contract(FM, 'FeatureModel.get_requires_constraints', prop='C18', also=('C03',))
 class GetRequiresConstraints:
     """exactly the constraints in one of the documented requires forms, in model order"""
     models = staticmethod(ctc_models)
@@ -308,7 +308,7 @@ class GetRequiresConstraints:
         return result == [c for c in self.ctcs if req_form(c.ast.root)]
 
 
-@contract(FM, 'FeatureModel.get_excludes_constraints', prop='C18')
+@contract(FM, 'FeatureModel.get_excludes_constraints', prop='C18', also=('C03',))
 class GetExcludesConstraints:
     models = staticmethod(ctc_models)
 
@@ -319,7 +319,7 @@ class GetExcludesConstraints:
         return result == [c for c in self.ctcs if exc_form(c.ast.root)]
 
 
-@contract(FM, 'FeatureModel.get_simple_constraints', prop='C18')
+@contract(FM, 'FeatureModel.get_simple_constraints', prop='C18', also=('C03',))
 class GetSimpleConstraints:
     models = staticmethod(ctc_models)
 
